@@ -166,7 +166,9 @@ func (m *xdsResourceManager) VerifWatch(rt xdsresource.ResourceType, name string
 
 // VerifYieldFn, when set, is called at the yield points of Get:
 // 1 after the first cache miss, 2 before the select, 3 after the notifier arm fired,
-// 4 after the deadline arm fired.
+// 4 after the deadline arm fired;
+// and in the response handlers (receiver goroutine, ctx = context.Background(), name = ""):
+// 5 after updateAndACK, before the interest filter; 6 after the filter, before UpdateResource.
 var verifYieldFn atomic.Value // func(ctx context.Context, point int, rt xdsresource.ResourceType, name string)
 
 // SetVerifYield installs the function called at Get's yield points; ctx is the context of that
